@@ -1297,8 +1297,7 @@ class DesignSpace:
         if out is None:
             out = x_vect.copy()
         else:
-            out *= 0
-            out = x_vect
+            out[...] = x_vect
 
         # Unnormalize the relevant components:
         recast_to_int = False
